@@ -437,6 +437,21 @@ def handle (memo : Memo) (line : String) : Memo × String :=
                   | some _, some (_, []) => (memo, "E ArgError")
                   | _, _ => (memo, "X bad-args")
                 | _ => (memo, "X bad-args")
+              | "clisign" => match r3 with
+                -- gpg clisign … <file bytes | -> <fingerprint argument as typed>: exit status (module entry point) and the file afterwards
+                | ft :: r4 =>
+                  let file : Option (Option Bytes) := if ft == "-" then some none else (parseHexBytes (match ft.toList with | 'x' :: r => String.ofList r | l => String.ofList l)).map some
+                  match file, parseVal r4 with
+                  | some fl, some (.j (.str f), []) =>
+                    let (o, fl') := cliGpgSign G sslib fl f
+                    (memo, "exit=" ++ toString (exitStatus .modulePkg o) ++ " file=" ++ (match fl' with | some b => hexStr b | none => "-"))
+                  | _, _ => (memo, "X bad-args")
+                | _ => (memo, "X bad-args")
+              | "clilookup" => match parseVal r3 with
+                | some (.j (.str f), []) =>
+                  let (o, q) := cliGpgKeyLookup G sslib f
+                  (memo, "exit=" ++ toString (exitStatus .modulePkg o) ++ " q=" ++ (match q with | some s => "s" ++ codesStr s | none => "-"))
+                | _ => (memo, "X bad-args")
               | "via" => match parseVal r3 with
                 | some (d, r4) => match parseVal r4 with
                   | some (f, [inc]) => (memo, showResJ (signViaGpgV G sslib d f (inc == "t")))
